@@ -823,6 +823,7 @@ func runScenario(sc *Scenario, seed uint64, wd *int64) (terms []string, cats []s
 	// Funcs with default options are created up front, the way user code
 	// does; default slices have spare capacity and may share a backing array
 	pre := map[int]*am.Func{}
+	preByKey := map[string]*am.Func{}
 	preErr := map[int]bool{}
 	backing := map[int][]am.Arg{}
 	for oi := range sc.Ops {
@@ -840,12 +841,22 @@ func runScenario(sc *Scenario, seed uint64, wd *int64) (terms []string, cats []s
 			defs = append(defs, rt.goOpts(op.Defaults)...)
 		}
 		backing[oi] = defs
+		key := fmt.Sprintf("%d|%s", op.Target, rt.optsTerm(op.Defaults))
+		if op.SharePrefix == 0 {
+			if f, ok := preByKey[key]; ok {
+				pre[oi] = f // the same Func object is used again, as a program would
+				continue
+			}
+		}
 		withRecover(func() {
 			f, err := am.NewFunc(sc.Funcs[op.Target].raw, defs...)
 			if err != nil {
 				preErr[oi] = true
 			} else {
 				pre[oi] = f
+				if op.SharePrefix == 0 {
+					preByKey[key] = f
+				}
 			}
 		})
 	}
@@ -877,7 +888,7 @@ func runScenario(sc *Scenario, seed uint64, wd *int64) (terms []string, cats []s
 						return
 					}
 				}
-				args := append([]am.Arg{nullLog}, rt.goOpts(op.Opts)...)
+				args := rt.callArgs(op.Opts)
 				r := f.Call(args...)
 				ran := false
 				for _, e := range rt.events {
@@ -895,7 +906,7 @@ func runScenario(sc *Scenario, seed uint64, wd *int64) (terms []string, cats []s
 			})
 		case "convert":
 			p, pmsg = withRecover(func() {
-				args := append([]am.Arg{nullLog}, rt.goOpts(op.Opts)...)
+				args := rt.callArgs(op.Opts)
 				v, err := am.Convert(tyOf[op.Ty], args...)
 				c := rt.classify(err, false)
 				if c == "" {
@@ -930,7 +941,7 @@ func runScenario(sc *Scenario, seed uint64, wd *int64) (terms []string, cats []s
 						return
 					}
 				}
-				args := append([]am.Arg{nullLog}, rt.goOpts(op.Opts)...)
+				args := rt.callArgs(op.Opts)
 				nf, err := f.Redefine(args...)
 				c := rt.classify(err, false)
 				if c == "" {
@@ -1073,4 +1084,13 @@ func startWatchdog(idx *int64, last *int64) {
 			}
 		}
 	}()
+}
+
+// callArgs: the options of one Call/Redefine. An operation without options passes
+// NO argument at all (not even the logger), as a program relying on defaults would.
+func (rt *runtimeT) callArgs(opts []Opt) []am.Arg {
+	if len(opts) == 0 {
+		return nil
+	}
+	return append([]am.Arg{nullLog}, rt.goOpts(opts)...)
 }
